@@ -126,7 +126,11 @@ def run(chk):
         reals.append((res, trace))
         renders.append(qc.real_render(m, math.inf))
         lines.append(qc.encode_case("quote", qc.norm_table(symbols), {}, d))
-    outs = qc.run_model(binary, lines) if binary else [None] * len(cases)
+    try:
+        outs = qc.run_model(binary, lines) if binary else [None] * len(cases)
+    except Exception as e:  # noqa  -- a broken model must not stop the oracle
+        chk.obligation("extracted model ran on the generated cases", False, str(e)[-1000:])
+        outs = [None] * len(cases)
     n_wf = 0
     bad_instances = []
     for (origin, text, m), d, (res, trace), rr, out in zip(cases, dumps, reals, renders, outs):
